@@ -175,6 +175,7 @@ theorem mapM'_decodeKdAttributes_parts (opts : DecOpts) (n : Nat) : ∀ (l : Lis
     it accepts with all, ends in the same state, and the geometries are the same parts finished
     with the respective options -/
 theorem decodeKdGeometry_parts (opts : DecOpts) (s s' : DSt) (g : Geometry)
+    (hv : ¬ s.version < bsVersion 2 3)
     (h : decodeKdGeometry opts s = (some g, s')) :
     ∃ (n : Nat) (ps : List KdParts), (∀ p ∈ ps, p.OK n) ∧
       ∀ o : DecOpts, decodeKdGeometry o s =
@@ -182,9 +183,11 @@ theorem decodeKdGeometry_parts (opts : DecOpts) (s s' : DSt) (g : Geometry)
                 atts := (ps.map (finishParts o n)).flatten }, s') := by
   unfold decodeKdGeometry at h
   obtain ⟨ver, s1, h1, h⟩ := bind_some h
-  split at h
-  · simp [failWith] at h
-  rename_i hver
+  have hver1 : ver = s.version := by
+    simp only [version, Prod.mk.injEq, Option.some.injEq] at h1
+    exact h1.1.symm
+  have hver : ¬ ver < bsVersion 2 3 := by rw [hver1]; exact hv
+  rw [if_neg hver] at h
   obtain ⟨np, s2, h2, h⟩ := bind_some h
   obtain ⟨_, s3, h3, h⟩ := bind_some h
   simp only at h
@@ -204,5 +207,107 @@ theorem decodeKdGeometry_parts (opts : DecOpts) (s s' : DSt) (g : Geometry)
   simp only [bind_apply, h1, if_neg hver, h2, h3, h4, g1, hds, psreplay o]
   rw [← h.2, ← hatts.2]
   rfl
+
+/-! ### bitstreams older than 2.3: the options are not looked at -/
+
+/-- below 2.3 `TransformAttributesToOriginalFormat` has nothing to do (no portable attributes, no
+    signed minima): the decode does not depend on the options at all -/
+theorem decodeKdGeometry_legacy_eq (opts : DecOpts) (s : DSt) (hv : s.version < bsVersion 2 3) :
+    decodeKdGeometry opts s = decodeKdGeometryLegacy s := by
+  unfold decodeKdGeometry
+  simp only [bind_apply, version, if_pos hv]
+
+section legacy
+open Draco.Robust
+
+theorem post_decodeLegacyFloat_plain (legacy : Bool) (numPoints : Nat) (ka : KdAtt) :
+    Post (decodeLegacyFloat legacy numPoints ka) (fun a => a.transform = .none) := by
+  unfold decodeLegacyFloat
+  apply post_bind_any; intro _
+  apply post_bind_any; intro _
+  apply post_bind_any; intro _
+  apply post_bind_any; intro _
+  apply post_bind_any; intro _
+  apply post_bind_any; intro _
+  apply post_bind_any; intro _
+  exact post_pure rfl
+
+theorem post_decodeLegacyInt_plain (legacy : Bool) (numPoints : Nat) (kas : List KdAtt) (dim : Nat) :
+    Post (decodeLegacyInt legacy numPoints kas dim) (fun atts => ∀ a ∈ atts, a.transform = .none) := by
+  unfold decodeLegacyInt
+  apply post_bind_any; intro _
+  apply post_bind_any; intro _
+  apply post_bind_any; intro _
+  apply post_bind_any; intro _
+  apply post_bind_any; intro _
+  apply post_bind_any; intro _
+  apply post_bind_any; intro _
+  apply post_bind_any; intro _
+  apply post_bind_any; intro _
+  apply post_pure
+  intro a ha
+  simp only [List.mem_map] at ha
+  obtain ⟨ka, _, rfl⟩ := ha
+  rfl
+
+theorem post_decodeKdAttributesLegacy_plain (numPoints : Nat) (descs : List AttDesc) :
+    Post (decodeKdAttributesLegacy numPoints descs) (fun atts => ∀ a ∈ atts, a.transform = .none) := by
+  unfold decodeKdAttributesLegacy
+  apply post_bind_any; intro _
+  cases hcl : classifyLegacy descs 0 with
+  | none => exact post_fail
+  | some cl =>
+    simp only
+    apply post_bind_any; intro ver
+    apply post_bind_any; intro method
+    unfold decodeLegacyMethod
+    apply post_ite
+    · intro _
+      rcases hk1 : cl.1 with _ | ⟨ka, _ | ⟨kb, rest⟩⟩
+      · exact post_fail
+      · simp only
+        apply post_ite
+        · intro _
+          refine post_bind (post_decodeLegacyFloat_plain _ numPoints ka) ?_
+          intro a ha
+          apply post_pure
+          intro x hx
+          simp only [List.mem_singleton] at hx
+          rw [hx]; exact ha
+        · intro _; exact post_fail
+      · exact post_fail
+    · intro _
+      apply post_ite
+      · intro _; exact post_decodeLegacyInt_plain _ numPoints cl.1 cl.2
+      · intro _; exact post_fail
+
+/-- the geometry of a legacy kd-tree stream is a point cloud without faces whose attributes carry
+    no transform data -/
+theorem decodeKdGeometryLegacy_plain (s s' : DSt) (g : Geometry)
+    (h : decodeKdGeometryLegacy s = (some g, s')) :
+    g.isMesh = false ∧ g.faces = [] ∧ ∀ a ∈ g.atts, a.transform = .none := by
+  have hpost : Post decodeKdGeometryLegacy
+      (fun g => g.isMesh = false ∧ g.faces = [] ∧ ∀ a ∈ g.atts, a.transform = .none) := by
+    unfold decodeKdGeometryLegacy
+    apply post_bind_any; intro np
+    apply post_bind_any; intro _
+    apply post_bind_any; intro _
+    refine post_bind (P := fun atts => ∀ a ∈ atts, a.transform = .none) ?_ ?_
+    · unfold decodePointAttributesKdLegacy
+      apply post_bind_any; intro nd
+      apply post_bind_any; intro descss
+      refine post_bind (post_mapM' (decodeKdAttributesLegacy np.toNat) (fun _ => True) _
+        (fun ds _ => post_decodeKdAttributesLegacy_plain np.toNat ds) descss (fun _ _ => trivial)) ?_
+      intro attss hatt
+      apply post_pure
+      intro a ha
+      simp only [List.mem_flatten] at ha
+      obtain ⟨l, hl, hal⟩ := ha
+      exact hatt.2 l hl a hal
+    · intro atts hatts
+      exact post_pure ⟨rfl, rfl, hatts⟩
+  exact hpost s g s' h
+
+end legacy
 
 end Draco.Kd
